@@ -29,6 +29,8 @@ pub struct Case {
     pub spare_rows: usize,
     /// rows the weight matrix had in excess before being `resize`d down to its width (0: built at its width)
     pub trimmed_rows: usize,
+    /// see cfgs::CLONED
+    pub cloned: u8,
 }
 
 impl Case {
@@ -46,6 +48,7 @@ impl Case {
             "wrap_override": self.wrap_override,
             "spare_rows": self.spare_rows,
             "trimmed_rows": self.trimmed_rows,
+            "cloned": self.cloned,
             "cfg": cfg.map(|c| c.name()),
         })
     }
@@ -59,6 +62,7 @@ impl Case {
             wrap_override: v["wrap_override"].as_u64().map(|x| x as usize),
             spare_rows: v["spare_rows"].as_u64().unwrap_or(0) as usize,
             trimmed_rows: v["trimmed_rows"].as_u64().unwrap_or(0) as usize,
+            cloned: v["cloned"].as_u64().unwrap_or(0) as u8,
         }
     }
 }
@@ -131,8 +135,10 @@ pub fn check_case<A: Alphabet>(case: &Case, cfgs_: &[Cfg], light: bool) -> Outco
         out.invocations += ranges.len() as u64;
         let res: Result<ScoreOut, String> = {
             cfgs::SPARE_ROWS.with(|x| x.set(case.spare_rows));
+            cfgs::CLONED.with(|x| x.set(case.cloned));
             let r = catch(|| cfgs::score_f32::<A>(cfg, &syms, &pssm, &ranges, case.wrap_override));
             cfgs::SPARE_ROWS.with(|x| x.set(0));
+            cfgs::CLONED.with(|x| x.set(0));
             r
         };
         let so = match res {
@@ -448,6 +454,7 @@ fn run_shapes<A: Alphabet>(alpha: &'static str, ctx: &mut Ctx, rep: &mut Report,
                             wrap_override: None,
                             spare_rows: 0,
                             trimmed_rows: 0,
+                            cloned: 0,
                         };
                         ctx.crumb(|| case.origin.clone());
                         let o = check_case::<A>(&case, &cfgs::ALL_CFGS, big);
@@ -486,6 +493,7 @@ fn run_shapes<A: Alphabet>(alpha: &'static str, ctx: &mut Ctx, rep: &mut Report,
                     wrap_override: Some(w),
                     spare_rows: 0,
                     trimmed_rows: 0,
+                    cloned: 0,
                 };
                 let o = check_case::<A>(&case, &cfgs::ALL_CFGS, false);
                 for _ in 0..o.invocations {
@@ -515,6 +523,7 @@ fn run_shapes<A: Alphabet>(alpha: &'static str, ctx: &mut Ctx, rep: &mut Report,
                     wrap_override: None,
                     spare_rows: 0,
                     trimmed_rows: trim,
+                    cloned: 0,
                 };
                 let o = check_case::<A>(&case, &cfgs::ALL_CFGS, false);
                 for _ in 0..o.invocations {
@@ -522,6 +531,35 @@ fn run_shapes<A: Alphabet>(alpha: &'static str, ctx: &mut Ctx, rep: &mut Report,
                 }
                 for (sig, msg, cfg) in o.failures {
                     rep.violation(format!("C01 {} {} trimmed-matrix {}", alpha, cfg.map(|c| c.name()).unwrap_or("-"), sig), msg, || case.json(cfg));
+                }
+            }
+        }
+    }
+    // a CLONE of the configured sequence is scored (taken after configure; optionally configured once more)
+    for &l in &[0usize, 1, 5, 31, 32, 33, 64, 100, 1025] {
+        for &m in &[1usize, 2, 5, 17, 34] {
+            for cloned in [1u8, 2] {
+                let idx = *base;
+                *base += 1;
+                if !ctx.mine(idx) {
+                    continue;
+                }
+                let case = Case {
+                    alpha,
+                    seq: model::digit_pattern_wild(l, k, 0, 5),
+                    matrix: make_matrix("enc", m, k, 0),
+                    origin: format!("shapes/cloned-sequence L={} M={} mode={}", l, m, cloned),
+                    wrap_override: None,
+                    spare_rows: 0,
+                    trimmed_rows: 0,
+                    cloned,
+                };
+                let o = check_case::<A>(&case, &cfgs::ALL_CFGS, false);
+                for _ in 0..o.invocations {
+                    rep.eval_distinct(o.nontrivial);
+                }
+                for (sig, msg, cfg) in o.failures {
+                    rep.violation(format!("C01 {} {} cloned-sequence {}", alpha, cfg.map(|c| c.name()).unwrap_or("-"), sig), msg, || case.json(cfg));
                 }
             }
         }
@@ -544,6 +582,7 @@ fn run_shapes<A: Alphabet>(alpha: &'static str, ctx: &mut Ctx, rep: &mut Report,
                     wrap_override: None,
                     spare_rows: spare,
                     trimmed_rows: 0,
+                    cloned: 0,
                 };
                 let o = check_case::<A>(&case, &cfgs::ALL_CFGS, false);
                 for _ in 0..o.invocations {
@@ -609,6 +648,7 @@ fn run_small<A: Alphabet>(alpha: &'static str, ctx: &mut Ctx, rep: &mut Report, 
                         wrap_override: None,
                         spare_rows: 0,
                         trimmed_rows: 0,
+                        cloned: 0,
                     };
                     // lane-count variety matters little for <= 6 symbols: one of each family
                     let set = [Cfg::GenU32, Cfg::GenU2, Cfg::SseU16, Cfg::AvxU32, Cfg::DispGen, Cfg::DispSse, Cfg::DispAvx];
